@@ -19,6 +19,7 @@ class DecPart(Part):
     MaxSizeExceeded (the kind the properties name), any other decode error is just `error`"""
     project_is_identity = False
     vm_slice = 150
+    has_oracle = False        # Python checks below + decode-back through the model; no Coq oracle engine
 
     def project(self, case, obs):
         out = []
@@ -161,6 +162,7 @@ class EncPart(Part):
     of an error, only whether it is OverMaxPacketSize; `left` (bytes left by a failed op) is kept"""
     project_is_identity = False
     vm_slice = 150
+    has_oracle = False
     v5 = False
 
     def project(self, case, obs):
@@ -299,6 +301,7 @@ class Enc5Part(EncPart):
 
 class SimplePart(Part):
     vm_slice = 200
+    has_oracle = False
 
     def py_oracle(self, case, obs):
         return "0,1" if obs == "9999" else "1"
